@@ -87,6 +87,15 @@ def observe(cfg, variant=0):
         p2 = f.predict()
         stubs.LOG[TAG] = saved
         o["independent"] = bool(list(p2.index) == list(p.index) and np.array_equal(p2.values, p.values))
+        # a multiplexer answers like its selected member also for prediction intervals at a non-default level
+        o["alpha_ok"] = True
+        if cfg["tree"]["kind"] == "mux":
+            sel = (cfg.get("resel") or cfg["tree"]["sel"]) - 1
+            if cfg["tree"]["kids"][sel]["kind"] == "leaf":
+                yp, pi = f.predict(return_pred_int=True, alpha=0.25)
+                o["alpha_ok"] = bool(np.array_equal(yp.values, p.values) and np.allclose(pi["upper"].values - yp.values, 250.0)
+                                     and np.allclose(yp.values - pi["lower"].values, 250.0))
+            stubs.LOG[TAG] = saved
         return o
     except Exception as e:
         import traceback
